@@ -85,6 +85,17 @@ def cmd_check(args):
         viol_lines.append(f"VIOLATION property={pid} replay={path}")
         if rc == 0:
             rc = 1
+    # the hashseed fault: a sample of this batch is re-executed in a fresh interpreter under another PYTHONHASHSEED;
+    # the digests over all normalised per-event results must be the same (reported apart from property violations)
+    hs = hashseed_sample(pid, tier, base, min(total['runs'], runs))
+    total['hashseed'] = hs
+    if hs.get('checked'):
+        total['faults']['hashseed'] = hs['checked']
+    if hs.get('mismatches'):
+        print(f"HARNESS-NONDETERMINISM: {hs['mismatches']} of {hs['checked']} sampled runs give other results under "
+              f"PYTHONHASHSEED={hs['hashseed']} (indices {hs['bad'][:5]}) - hash order leaks into the library's results "
+              f"or into the harness", flush=True)
+        rc = rc or 2
     write_evidence(mod, pid, tier, base, total, wall, nviol)
     for ln in viol_lines:
         print(ln, flush=True)
@@ -93,6 +104,35 @@ def cmd_check(args):
           f"{len(total['shapes'])} interleavings, {len(total['states'])} states in {wall:.1f}s "
           f"({rate:,.0f} runs/h); faults {dict(total['faults'])}; exit {rc}", flush=True)
     return rc
+
+
+def hashseed_sample(pid, tier, base, nruns, n=None):
+    from sim import selftest
+    n = n or int(os.environ.get('VERIF_HASHSEED_SAMPLE', 120 if tier == 'quick' else 600))
+    if nruns < 10 or n <= 0:
+        return {'checked': 0}
+    mod = registry.load(pid)
+    fams = [f for f in getattr(mod, 'FAMILY_STARTS', [0]) if f < nruns] or [0]
+    per = max(1, n // len(fams))
+    idxs = []
+    for st in fams:
+        idxs.extend(i for i in range(st, st + per) if i < nruns)
+    here = kernel.run_batch(pid, [(base, i) for i in idxs], tier, chunk=40,
+                            opts={'digests': True, 'stop_on_violation': False})['digests']
+    other = {}
+    hs = '424242'
+    try:
+        env = dict(os.environ, PYTHONHASHSEED=hs, VERIF_HASHSEED=hs, VERIF_IDX=json.dumps(idxs), VERIF_BASE=str(base),
+                   VERIF_TIERX=tier)
+        r = subprocess.run([sys.executable, os.path.join(HERE, 'run.py'), 'selftest', 'digests_of', pid],
+                           capture_output=True, text=True, env=env, timeout=1800)
+        for ln in r.stdout.splitlines():
+            if ln.startswith('DIGESTS '):
+                other = {int(k): v for k, v in json.loads(ln[8:]).items()}
+    except Exception as e:  # pragma: no cover
+        return {'checked': 0, 'error': repr(e)}
+    bad = [i for i in idxs if here.get(base + i) != other.get(base + i)]
+    return {'checked': len(idxs), 'mismatches': len(bad), 'bad': bad, 'hashseed': hs}
 
 
 def mod_chunk(mod):
@@ -167,6 +207,7 @@ def write_evidence(mod, pid, tier, base, total, wall, nviol):
             'real_vs_stub': 'all library code real (imported from /repo/src); stubbed: nothing' +
                             getattr(mod, 'STUB_NOTE', ''),
             'tree': boot.tree_id(),
+            'hashseed_fault': total.get('hashseed', {}),
             'harness_errors': len(total['harness_errors']),
         },
         'assumptions': getattr(mod, 'ASSUMPTIONS', []),
